@@ -73,10 +73,15 @@ def run_history(util, c, ops, kind, sr, sw, ch, durs, tmpdir, use_recorder_class
             return [{"op": "construct", "k": type(exc).__name__, "ids": []}], info
         info = {"block_size": r.block_size, "hop_size": r.hop_size, "block_dur": r.block_dur,
                 "sr": r.sr, "sw": r.sw, "ch": r.ch}
-        r.open()
+        if "open" not in ops and "never-open" not in ops:
+            r.open()
+        ops = [o_ for o_ in ops if o_ != "never-open"]
         for op in ops:
             try:
-                if op == "read":
+                if op == "open":
+                    r.open()
+                    log.append({"op": "open", "k": "ok", "ids": []})
+                elif op == "read":
                     k, ids = decode(r.read(), sw, ch)
                     log.append({"op": "read", "k": k, "ids": ids})
                 elif op == "rewind":
@@ -88,7 +93,8 @@ def run_history(util, c, ops, kind, sr, sw, ch, durs, tmpdir, use_recorder_class
                         k = "blk"
                     log.append({"op": "data", "k": k, "ids": ids})
             except Exception as exc:  # noqa
-                log.append({"op": op, "k": type(exc).__name__, "ids": []})
+                from auditok.exceptions import AudioIOError
+                log.append({"op": op, "k": "AudioIOError" if isinstance(exc, (AudioIOError, OSError)) else type(exc).__name__, "ids": []})
         try:
             r.close()
         except Exception:
@@ -142,7 +148,16 @@ def _replay_chunk(args):
         c = b["c"]
         exp = spec_log(b["log"])
         kind, sr, sw, ch, durs = _variant(c, base + j)
-        got, info = run_history(util, c, [e["op"] for e in exp], kind, sr, sw, ch, durs, d, use_recorder_class=(base + j) % 2 == 0)
+        ops_ = [e["op"] for e in exp]
+        if "open" not in ops_ and b.get("closed"):
+            ops_ = ops_ + ["never-open"]          # a history whose reads all happen before any open(): keep the reader closed
+        got, info = run_history(util, c, ops_, kind, sr, sw, ch, durs, d, use_recorder_class=(base + j) % 2 == 0)
+        if c["lim"] == 0:
+            # before open(), with nothing visible, both an I/O error and None are behaviours of the specification
+            oi = next((k_ for k_, e_ in enumerate(exp) if e_["op"] == "open"), len(exp) if b.get("closed") else 0)
+            for k_ in range(min(oi, len(exp), len(got))):
+                if exp[k_]["op"] == "read" and got[k_]["op"] == "read" and {exp[k_]["k"], got[k_]["k"]} <= {"AudioIOError", "none"}:
+                    got[k_] = dict(exp[k_])
         ok = got == exp and info.get("block_size") == c["b"] and info.get("hop_size") == c["h"]
         if not ok:
             bad.append({"c": c, "kind": kind, "fmt": [sr, sw, ch], "durs": durs, "expected": exp, "got": got, "info": info})
@@ -244,9 +259,10 @@ def gen_history(rng, tier):
         ops.append("rewind")
         if rng.random() < .5:
             ops.append("data")
+    ops = ["read"] * rng.choice([0, 0, 0, 1, 2, 3]) + ["open"] + ops          # reads before open() raise and leave no trace
     if not rec:
         # non-recording readers: data / rewind raise AttributeError; one probe of each is enough
-        ops = [o for o in ops if o == "read"] + rng.choice([[], ["rewind"], ["data"], ["data", "rewind"], ["rewind", "read", "data"]])
+        ops = [o for o in ops if o in ("read", "open")] + rng.choice([[], ["rewind"], ["data"], ["data", "rewind"], ["rewind", "read", "data"]])
     return c, ops, rng.choice(KINDS), sr, sw, ch, durs
 
 
@@ -389,13 +405,13 @@ def check(prop, tier, replay=None):
                         f"AudioReader {c} kind={tr['kind']} fmt={tr['fmt']} durs={tr['durs']} sizes={tr['info']}: event #{i} {str(e)[:200]} "
                         f"is not explained by the specification (monitors C10={row[4]} C19={row[5]})", {"leg": "T", **tr})
         else:
-            V.divergence({"c": c, "event": i})
+            V.divergence({"c": c, "event": i, "what": e, "before": [[x["op"], x["k"]] for x in tr["ev"][max(0, i - 4):i]], "kind": tr["kind"], "row": row})
     V.cov["traces_validated_against_impl"] += len(traces)
     V.count(len(traces), (canon([t_["c"], [e["op"] for e in t_["ev"]], t_["kind"]]) for t_ in traces if any(e["k"] == "blk" for e in t_["ev"])))
     V.leg("T", traces=len(traces), events=sum(len(t_["ev"]) for t_ in traces), wall_s=round(time.time() - t0, 2))
     big = max(traces, key=lambda t_: len(t_["ev"]))
     V.sample({"leg": "T", "c": big["c"], "kind": big["kind"], "fmt": big["fmt"], "durs": big["durs"],
-              "ops": "".join({"read": "r", "rewind": "W", "data": "d", "construct": "C"}[e["op"]] for e in big["ev"])})
+              "ops": "".join({"read": "r", "rewind": "W", "data": "d", "construct": "C", "open": "O"}[e["op"]] for e in big["ev"])})
     shutil.rmtree(tmpdir, ignore_errors=True)
     return V.finish(
         rule="leg M: TLC exhaustive over all configurations (n,b,h,lim,rec) x operation histories of the bound; leg R: every exported "
